@@ -3049,3 +3049,7 @@ mod tests {
         let _ = array.into_builder();
     }
 }
+
+#[cfg(kani)]
+#[path = "/verif/kani/arrow-array/array/primitive_array.rs"]
+mod verif_kani;
